@@ -447,6 +447,13 @@ class EvolvableModule(nn.Module, metaclass=ModuleMeta):
                     )
                     param.data[slice_index] = old_param.data[slice_index]
 
+        # Buffers of unchanged size (e.g. normalisation statistics) are carried over too
+        old_net_buffers = dict(old_net.named_buffers())
+        for key, buffer in new_net.named_buffers():
+            old_buffer = old_net_buffers.get(key)
+            if old_buffer is not None and old_buffer.size() == buffer.size():
+                buffer.data = old_buffer.data
+
         return new_net
 
     @staticmethod
